@@ -1,0 +1,158 @@
+//go:build verif
+
+package dilithium
+
+// Exported aliases of unexported functions for the verification harness in /verif.
+// Compiled only with `-tags verif`; adds no behaviour to the library.
+
+const (
+	VerifK = K
+	VerifL = L
+	VerifN = N
+)
+
+func VerifMontgomeryReduce(a int64) int32 { return montgomeryReduce(a) }
+func VerifReduce32(a int32) int32         { return reduce32(a) }
+func VerifCAddQ(a int32) int32            { return cAddQ(a) }
+func VerifPower2Round(a int32) (a1, a0 int32) {
+	a1 = power2Round(&a0, a)
+	return
+}
+func VerifDecompose(a int32) (a1, a0 int32) {
+	a1 = decompose(&a0, a)
+	return
+}
+func VerifMakeHint(a0, a1 int32) uint     { return makeHint(a0, a1) }
+func VerifUseHint(a int32, hint int) int32 { return useHint(a, hint) }
+
+func VerifNTT(a *[N]int32)          { ntt(a) }
+func VerifInvNTTToMont(a *[N]int32) { invNTTToMont(a) }
+func VerifPointwise(a, b *[N]int32) (c [N]int32) {
+	var pa, pb, pc poly
+	pa.coeffs, pb.coeffs = *a, *b
+	polyPointWiseMontgomery(&pc, &pa, &pb)
+	return pc.coeffs
+}
+func VerifPolyChkNorm(a *[N]int32, b int32) int {
+	var p poly
+	p.coeffs = *a
+	return polyChkNorm(&p, b)
+}
+
+func VerifPack(kind string, a *[N]int32) []uint8 {
+	var p poly
+	p.coeffs = *a
+	switch kind {
+	case "eta":
+		r := make([]uint8, PolyETAPackedBytes)
+		polyEtaPack(r, &p)
+		return r
+	case "t1":
+		r := make([]uint8, PolyT1PackedBytes)
+		polyT1Pack(r, &p)
+		return r
+	case "t0":
+		r := make([]uint8, PolyT0PackedBytes)
+		polyT0Pack(r, &p)
+		return r
+	case "z":
+		r := make([]uint8, PolyZPackedBytes)
+		polyZPack(r, &p)
+		return r
+	case "w1":
+		r := make([]uint8, PolyW1PackedBytes)
+		polyW1Pack(r, &p)
+		return r
+	}
+	panic("verif: unknown pack kind")
+}
+
+func VerifUnpack(kind string, b []uint8) [N]int32 {
+	var p poly
+	switch kind {
+	case "eta":
+		polyEtaUnpack(&p, b)
+	case "t1":
+		polyT1Unpack(&p, b)
+	case "t0":
+		polyT0Unpack(&p, b)
+	case "z":
+		polyZUnpack(&p, b)
+	default:
+		panic("verif: unknown unpack kind")
+	}
+	return p.coeffs
+}
+
+func VerifPackSig(c []uint8, z *[L][N]int32, h *[K][N]int32) ([CryptoBytes]uint8, error) {
+	var sig [CryptoBytes]uint8
+	var zv polyVecL
+	var hv polyVecK
+	for i := 0; i < L; i++ {
+		zv.vec[i].coeffs = z[i]
+	}
+	for i := 0; i < K; i++ {
+		hv.vec[i].coeffs = h[i]
+	}
+	err := packSig(sig[:], c, &zv, &hv)
+	return sig, err
+}
+
+func VerifUnpackSig(sig [CryptoBytes]uint8) (c [SeedBytes]uint8, z [L][N]int32, h [K][N]int32, rc int) {
+	var zv polyVecL
+	var hv polyVecK
+	rc = unpackSig(&c, &zv, &hv, sig)
+	for i := 0; i < L; i++ {
+		z[i] = zv.vec[i].coeffs
+	}
+	for i := 0; i < K; i++ {
+		h[i] = hv.vec[i].coeffs
+	}
+	return
+}
+
+func VerifRejUniform(n int, buf []uint8) ([]int32, uint32) {
+	a := make([]int32, n)
+	ctr := rejUniform(a, buf)
+	return a, ctr
+}
+
+func VerifRejEta(n int, buf []uint8) ([]int32, uint32) {
+	a := make([]int32, n)
+	ctr := rejEta(a, buf)
+	return a, ctr
+}
+
+func VerifPolyUniform(seed *[SeedBytes]uint8, nonce uint16) ([N]int32, error) {
+	var p poly
+	err := polyUniform(&p, seed, nonce)
+	return p.coeffs, err
+}
+
+func VerifPolyUniformEta(seed *[CRHBytes]uint8, nonce uint16) ([N]int32, error) {
+	var p poly
+	err := polyUniformEta(&p, seed, nonce)
+	return p.coeffs, err
+}
+
+func VerifPolyUniformGamma1(seed [CRHBytes]uint8, nonce uint16) [N]int32 {
+	var p poly
+	polyUniformGamma1(&p, seed, nonce)
+	return p.coeffs
+}
+
+func VerifPolyChallenge(seed []uint8) ([N]int32, error) {
+	var p poly
+	err := polyChallenge(&p, seed)
+	return p.coeffs, err
+}
+
+func VerifKeypair(seed []uint8) (pk [CryptoPublicKeyBytes]uint8, sk [CryptoSecretKeyBytes]uint8, err error) {
+	_, err = cryptoSignKeypair(seed, &pk, &sk)
+	return
+}
+
+// VerifSignWithSK runs the library's signing routine on an arbitrary secret-key byte string.
+func VerifSignWithSK(msg []uint8, sk *[CryptoSecretKeyBytes]uint8) ([]uint8, error) {
+	return cryptoSign(msg, sk, false)
+}
